@@ -373,7 +373,9 @@ func ReverseAddr(addr string) (arpa string, err error) {
 
 // String returns the string representation for the type t.
 func (t Type) String() string {
-	if t1, ok := TypeToString[uint16(t)]; ok {
+	// "None" and "Reserved" are not mnemonics of the type registry and the zone
+	// parser does not read them back; those two codes use the RFC 3597 form.
+	if t1, ok := TypeToString[uint16(t)]; ok && uint16(t) != TypeNone && uint16(t) != TypeReserved {
 		return t1
 	}
 	return "TYPE" + strconv.Itoa(int(t))
